@@ -1015,8 +1015,7 @@ class DataFrame:
                 for k in r.keys():
                     if not _inlist(k, self.columns):
                         self.columns.append(k)
-            if _b.all(isinstance(c, (SInt, _b.int)) for c in self.columns) and len(self.columns) > 1:
-                self.columns = mnp._sorted(list(self.columns))  # pandas sorts the union of differing integer indexes
+            # (pandas 2.x keeps the labels in order of first appearance; it does not sort the union)
             for c in self.columns:
                 self._cols[c] = _arr1([r.get(c, mnp.nan) for r in rows])
             n = len(rows)
